@@ -97,6 +97,7 @@ const (
 	// three sub-programs
 	oConcat3
 	oSequence3
+	oFailE2 // FromTry(Failure(e2)); only used by recover-after-state-change
 	nOps
 )
 
@@ -143,6 +144,7 @@ var ops = [nOps]opDef{
 	oRecoverCaseWith:   {"StateT.RecoverCaseWith", 2, []bool{false, true}, nil},
 	oConcat3:           {"statet.Concat", 3, []bool{false, false, false}, nil},
 	oSequence3:         {"statet.Sequence", 3, []bool{false, false, false}, nil},
+	oFailE2:            {"statet.FromTry", 0, nil, nil},
 }
 
 func (d opDef) nvar() int {
@@ -247,6 +249,8 @@ func (n *node) String() string {
 		return fmt.Sprintf("Concat(%s, %s, %s)", k(0), k(1), k(2))
 	case oSequence3:
 		return fmt.Sprintf("Sequence([%s, %s, %s])", k(0), k(1), k(2))
+	case oFailE2:
+		return "FromTry(Failure(e2))"
 	}
 	return "?"
 }
@@ -285,7 +289,7 @@ func alts(n int, bound bool) []alt {
 	var out []alt
 	for op := 0; op < nOps; op++ {
 		d := ops[op]
-		if (op == oArg || op == oAddArg) && !bound {
+		if (op == oArg || op == oAddArg) && !bound || op == oFailE2 {
 			continue
 		}
 		if d.kids == 0 && n != 1 || d.kids > 0 && n < 1+d.kids {
@@ -565,6 +569,8 @@ func build(f funcs, n *node, arg int) ST {
 		return statet.Concat(k(0), k(1), k(2))
 	case oSequence3:
 		return adapt(statet.Sequence([]ST{k(0), k(1), k(2)}), digits)
+	case oFailE2:
+		return statet.FromTry[int](fp.Failure[int](e2))
 	}
 	panic("build: bad op")
 }
@@ -661,6 +667,8 @@ func (m *refm) ref(n *node, arg int, s int) (res, int) {
 			return m.step(fail(e1)), s
 		}
 		return m.step(okv(8)), s
+	case oFailE2:
+		return m.step(fail(e2)), s
 	case oRun:
 		m.l.log("step:run(s=%d)", s)
 		return m.step(okv(s + 5)), inc(s)
@@ -965,57 +973,206 @@ func size(n *node) int {
 	return c
 }
 
+// judge compares one program from one initial state with the reference (the oracle of every
+// scenario) and names a violation after the smallest failing sub-program.
+func judge(x *mc.X, p *node, s int, sz int) *refm {
+	x.Logf("program: %v", p)
+	x.Logf("initial state: %d", s)
+	v, m := check(p, 0, s)
+	wantR, wantS := m.outR, m.outS
+	x.Logf("reference: (%v, state %d), primitive steps run %d, first failure at step %d", wantR, wantS, m.steps, m.firstFail)
+	// census first, so that it also counts the executions that end in a violation
+	// rule: at least two primitive steps ran (state had to flow), or a failure occurred
+	if m.steps >= 2 || m.firstFail >= 0 {
+		x.NonTrivial()
+	}
+	x.Tag("root=" + ops[p.op].name)
+	if m.firstFail >= 0 {
+		x.Tag(fmt.Sprintf("first-failure@step%d", m.firstFail))
+		if m.recovered {
+			x.Tag("failure-then-handler-ran")
+		}
+		if !wantR.ok {
+			x.Tag("program-fails")
+		}
+		if wantS != s {
+			x.Tag("failure-after-state-change")
+		}
+	} else {
+		x.Tag("no-failure")
+	}
+	if v.kind != "" {
+		mn, marg, ms, mv := minimalFailing(p, 0, s, v)
+		x.Fail(ops[mn.op].name+"/"+mv.kind, "%v from state %d: %s\nsmallest failing sub-program: %v (arg=%d) from state %d: %s", p, s, v.msg, mn, marg, ms, mv.msg)
+	}
+	if sz <= 3 {
+		// Exec and Eval are the other two runners of the same function
+		lg := &logger{}
+		ex := build(funcs{lg}, p, 0).Exec(s)
+		ev := build(funcs{lg}, p, 0).Eval(s)
+		wantEx := wantR
+		if wantR.ok {
+			wantEx = okv(wantS)
+		}
+		if toRes(ex) != wantEx {
+			x.Fail("StateT.Exec/value", "%v .Exec(%d) = %v, want %v", p, s, toRes(ex), wantEx)
+		}
+		if toRes(ev) != wantR {
+			x.Fail("StateT.Eval/value", "%v .Eval(%d) = %v, want %v", p, s, toRes(ev), wantR)
+		}
+	}
+	x.Observe(p.String(), s, wantR.String(), wantS)
+	return m
+}
+
 func programs(maxNodes int) func(x *mc.X) {
 	return func(x *mc.X) {
 		sz := 1 + x.Choose(maxNodes, "nodes")
 		p := genProgram(x, sz, false)
 		s := x.Choose(3, "initial state")
-		x.Logf("program: %v", p)
-		x.Logf("initial state: %d", s)
-		v, m := check(p, 0, s)
-		wantR, wantS := m.outR, m.outS
-		x.Logf("reference: (%v, state %d), primitive steps run %d, first failure at step %d", wantR, wantS, m.steps, m.firstFail)
-		// census first, so that it also counts the executions that end in a violation
-		// rule: at least two primitive steps ran (state had to flow), or a failure occurred
-		if m.steps >= 2 || m.firstFail >= 0 {
-			x.NonTrivial()
+		judge(x, p, s, sz)
+	}
+}
+
+// ---------------------------------------------------------------- recovery after a state change
+
+func lf(op, v int) *node { return &node{op: op, v: v} }
+func nd(op, v int, kids ...*node) *node {
+	return &node{op: op, v: v, kids: kids}
+}
+
+// failingPrefixes is a family of programs in which a step changes the state (Put, Modify,
+// ModifyS, Modify(+arg)) and a step fails with e1 or e2, at every position, composed with
+// each of FlatMapConst/FlatMap/Map2/Zip/Concat/Sequence/Traverse*/FoldM/WithState.
+func failingPrefixes() []*node {
+	changers := func() []*node {
+		return []*node{lf(oPut, 0), lf(oPut, 1), lf(oModify, 0), lf(oModifyS, 0)}
+	}
+	failers := func() []*node {
+		return []*node{lf(oFromTry, 0), lf(oFailE2, 0), lf(oModifyT, 1), lf(oModifyT, 2), lf(oGetST, 0)}
+	}
+	two := []func(a, b *node) *node{
+		func(a, b *node) *node { return nd(oFlatMapConst, 0, a, b) },
+		func(a, b *node) *node { return nd(oFlatMap, 0, a, b) },
+		func(a, b *node) *node { return nd(oMap2, 0, a, b) },
+		func(a, b *node) *node { return nd(oZip, 0, a, b) },
+		func(a, b *node) *node { return nd(oConcat2, 0, a, b) },
+		func(a, b *node) *node { return nd(oSequence2, 0, a, b) },
+		func(a, b *node) *node { return nd(oSequence2, 1, a, b) },
+	}
+	three := []func(a, b, c *node) *node{
+		func(a, b, c *node) *node { return nd(oFlatMapConst, 0, a, nd(oFlatMapConst, 0, b, c)) },
+		func(a, b, c *node) *node { return nd(oFlatMapConst, 0, nd(oFlatMapConst, 0, a, b), c) },
+		func(a, b, c *node) *node { return nd(oFlatMap, 0, a, nd(oFlatMap, 0, b, c)) },
+		func(a, b, c *node) *node { return nd(oMap2, 0, a, nd(oMap2, 0, b, c)) },
+		func(a, b, c *node) *node { return nd(oConcat3, 0, a, b, c) },
+		func(a, b, c *node) *node { return nd(oSequence3, 0, a, b, c) },
+	}
+	var out []*node
+	seen := map[string]bool{}
+	add := func(n *node) {
+		if k := n.String(); !seen[k] {
+			seen[k] = true
+			out = append(out, n)
 		}
-		x.Tag("root=" + ops[p.op].name)
-		if m.firstFail >= 0 {
-			x.Tag(fmt.Sprintf("first-failure@step%d", m.firstFail))
-			if m.recovered {
-				x.Tag("failure-then-handler-ran")
+	}
+	for ci := range changers() {
+		for fi := range failers() {
+			c := func() *node { return changers()[ci] }
+			f := func() *node { return failers()[fi] }
+			for _, sh := range two {
+				add(sh(c(), f())) // change, then fail
+				add(sh(f(), c())) // fail first: the change must not happen
 			}
-			if !wantR.ok {
-				x.Tag("program-fails")
+			for _, sh := range three {
+				add(sh(c(), f(), lf(oModify, 0))) // a later step must not run
+				add(sh(c(), lf(oModify, 0), f())) // two changes, then the failure
+				add(sh(lf(oGet, 0), c(), f()))
 			}
-			if wantS != s {
-				x.Tag("failure-after-state-change")
+			// per-element bodies: the first element already changes the state and fails
+			body := func() *node { return nd(oFlatMapConst, 0, c(), f()) }
+			for v := 0; v < 3; v++ {
+				add(nd(oTraverse, v, body()))
 			}
-		} else {
-			x.Tag("no-failure")
+			add(nd(oFoldM, 0, body()))
+			add(nd(oWithState, 0, body()))
 		}
-		if v.kind != "" {
-			mn, marg, ms, mv := minimalFailing(p, 0, s, v)
-			x.Fail(ops[mn.op].name+"/"+mv.kind, "%v from state %d: %s\nsmallest failing sub-program: %v (arg=%d) from state %d: %s", p, s, v.msg, mn, marg, ms, mv.msg)
+	}
+	for fi := range failers() {
+		// the element argument changes the state, then the step fails
+		for v := 0; v < 3; v++ {
+			add(nd(oTraverse, v, nd(oFlatMapConst, 0, lf(oAddArg, 0), failers()[fi])))
 		}
-		if sz <= 3 {
-			// Exec and Eval are the other two runners of the same function
-			lg := &logger{}
-			ex := build(funcs{lg}, p, 0).Exec(s)
-			ev := build(funcs{lg}, p, 0).Eval(s)
-			wantEx := wantR
-			if wantR.ok {
-				wantEx = okv(wantS)
-			}
-			if toRes(ex) != wantEx {
-				x.Fail("StateT.Exec/value", "%v .Exec(%d) = %v, want %v", p, s, toRes(ex), wantEx)
-			}
-			if toRes(ev) != wantR {
-				x.Fail("StateT.Eval/value", "%v .Eval(%d) = %v, want %v", p, s, toRes(ev), wantR)
-			}
+		add(nd(oFoldM, 0, nd(oFlatMapConst, 0, lf(oAddArg, 0), failers()[fi])))
+	}
+	for v := 0; v < 3; v++ {
+		// ModifyT(inc unless s==1): later elements fail after earlier ones changed the state
+		add(nd(oTraverse, v, lf(oModifyT, 2)))
+	}
+	add(nd(oFoldM, 0, lf(oModifyT, 2)))
+	return out
+}
+
+type recoverer struct {
+	name string
+	wrap func(p *node) *node
+}
+
+// recoverers: the eight Recover* methods (and Transform/TransformWith); the handler programs
+// of RecoverWith/RecoverCaseWith/TransformWith read, keep, overwrite or modify the state,
+// or fail themselves.
+func recoverers() []recoverer {
+	var out []recoverer
+	for _, op := range []int{oRecover, oRecoverT, oRecoverWithState, oRecoverWithStateT, oRecoverCase, oRecoverCaseT, oTransform} {
+		op := op
+		out = append(out, recoverer{ops[op].name, func(p *node) *node { return nd(op, 0, p) }})
+	}
+	handlers := []func() *node{
+		func() *node { return lf(oGet, 0) },
+		func() *node { return lf(oPure, 0) },
+		func() *node { return lf(oArg, 0) },
+		func() *node { return lf(oPut, 0) },
+		func() *node { return lf(oPut, 1) },
+		func() *node { return lf(oModify, 0) },
+		func() *node { return lf(oAddArg, 0) },
+		func() *node { return lf(oGetS, 0) },
+		func() *node { return lf(oModifyT, 2) },
+		func() *node { return lf(oFromTry, 0) },
+	}
+	for _, op := range []int{oRecoverWith, oRecoverCaseWith, oTransformWith} {
+		for _, h := range handlers {
+			op, h := op, h
+			out = append(out, recoverer{ops[op].name + " with handler " + h().String(), func(p *node) *node { return nd(op, 0, p, h()) }})
 		}
-		x.Observe(p.String(), s, wantR.String(), wantS)
+	}
+	return out
+}
+
+func recoverAfterStateChange() func(x *mc.X) {
+	prefixes := failingPrefixes()
+	recs := recoverers()
+	return func(x *mc.X) {
+		c := x.Choose(len(prefixes)*len(recs), "failing program x recovery")
+		pre := prefixes[c/len(recs)]
+		rc := recs[c%len(recs)]
+		thenGet := x.Bool("followed by Get")
+		s := x.Choose(3, "initial state")
+		p := rc.wrap(pre)
+		if thenGet {
+			p = nd(oMap2, 0, p, lf(oGet, 0))
+		}
+		// what the recovered program does on its own (reference): census only
+		pr, ps := (&refm{firstFail: -1}).ref(pre, 0, s)
+		x.Tag("recovery=" + ops[rc.wrap(pre).op].name)
+		switch {
+		case pr.ok:
+			x.Tag("recovered-program/succeeds")
+		case ps != s:
+			x.Tag("recovered-program/fails-after-state-change/" + errName(pr.err))
+		default:
+			x.Tag("recovered-program/fails-in-initial-state/" + errName(pr.err))
+		}
+		judge(x, p, s, size(p))
 	}
 }
 
@@ -1094,7 +1251,7 @@ func laws(x *mc.X) {
 
 func main() {
 	mc.Main("C17", func(r *mc.Registry) {
-		r.Rule = "programs: every AST with at most N nodes over the alphabet in bounds (leaf Pure(arg)/Modify(+arg) only under a binder) x every initial state in {0,1,2}; failing leaves (FromTry(Failure), ModifyT, GetST, MapT, MapWithStateT) are ordinary alphabet members, so a failure is injected at every position; non-trivial = the reference ran at least two primitive steps or a failure occurred; distinct = (program, initial state, result, final state). laws: law x initial state x Put argument x all 27 functions on {0,1,2}"
+		r.Rule = "programs: every AST with at most N nodes over the alphabet in bounds (leaf Pure(arg)/Modify(+arg) only under a binder) x every initial state in {0,1,2}; failing leaves (FromTry(Failure), ModifyT, GetST, MapT, MapWithStateT) are ordinary alphabet members, so a failure is injected at every position; non-trivial = the reference ran at least two primitive steps or a failure occurred; distinct = (program, initial state, result, final state). laws: law x initial state x Put argument x all 27 functions on {0,1,2}. recover-after-state-change: (program of a fixed family that changes the state through Put/Modify/ModifyS/Modify(+arg) and fails with e1 or e2, at every position of FlatMapConst/FlatMap/Map2/Zip/Concat/Sequence/Traverse*/FoldM/WithState compositions of 2-3 steps) x (each of the eight Recover* methods, Transform, TransformWith; RecoverWith/RecoverCaseWith/TransformWith with each of ten handler programs that read, keep, overwrite or modify the state or fail) x (alone | followed by Get) x initial state, same reference and key naming"
 		r.Assumptions = []string{
 			"the reference interpreter ref(e)(s) in the driver encodes the statement: state flows left to right; after a failing step nothing later runs and the state is the state at the failure; a Recover* handler gets the error and that state, which is the state returned (RecoverWith/RecoverCaseWith: the handler's program starts from it)",
 			"callback logs are compared by containment: every user-function invocation made by the library (with its arguments) must also occur in the reference run; missing or repeated invocations are not demanded",
@@ -1107,7 +1264,13 @@ func main() {
 		}
 		sc := r.Seq("programs", programs(maxNodes))
 		sc.SplitDepth = 3
+		sc.Shard = true
 		r.Seq("laws", laws)
+		// the quick node bound (4) is too small for "change the state, fail, recover with a
+		// state-dependent handler" (5 nodes for RecoverCaseWith); this family has it at both tiers
+		sc = r.Seq("recover-after-state-change", recoverAfterStateChange())
+		sc.SplitDepth = 1
+		sc.Shard = true
 		var names []string
 		seen := map[string]bool{}
 		for op := 0; op < nOps; op++ {
@@ -1141,12 +1304,13 @@ func main() {
 			}
 		}
 		r.Extra["bounds"] = map[string]any{
-			"max_nodes":         maxNodes,
-			"states":            []int{0, 1, 2},
-			"library_functions": names,
-			"alphabet_sizes":    map[string]int{"leaves(incl. 2 binder leaves)": leaves, "one sub-program": unary, "two sub-programs": binary, "three sub-programs": ternary},
-			"errors":            []string{"e1", "e2", "e3 (MapT/MapWithStateT)", "eH (handler)"},
-			"law_functions":     27,
+			"max_nodes":                  maxNodes,
+			"states":                     []int{0, 1, 2},
+			"library_functions":          names,
+			"alphabet_sizes":             map[string]int{"leaves(incl. 2 binder leaves)": leaves, "one sub-program": unary, "two sub-programs": binary, "three sub-programs": ternary},
+			"errors":                     []string{"e1", "e2", "e3 (MapT/MapWithStateT)", "eH (handler)"},
+			"law_functions":              27,
+			"recover_after_state_change": map[string]int{"failing_programs": len(failingPrefixes()), "recoveries": len(recoverers())},
 		}
 		r.Extra["uncovered"] = []string{
 			"the remaining generated applicative/monad helpers of statet/state_monad.go (Lift*, LiftA3..9, LiftM*, FlatMap2..9, Map3..9, Flap*, Method*, Compose*, With, UnZip, Zip3, ApFunc, Flatten, MapSeqLift/MapSliceLift) and ApTry/ApOption: all defined by FlatMap/Map/Map2/Ap, which are covered; the property names FlatMap/Map2/Sequence/Traverse/FoldM/Concat and the Recover* variants",
